@@ -207,7 +207,11 @@ Definition judge (c : case) : N :=
         end in
       let monitor :=
         if status =? 200 then
-          perm_eqb got spec && sizes_ok max_msg got && (topic_count =? Z.of_nat (length got)) &&
+          (match kind, intent with
+           | 2%N, 1%N => perm_eqb got want
+           | 2%N, _ => true          (* tampered batch: no independent reading of it *)
+           | _, _ => perm_eqb got spec
+           end) && sizes_ok max_msg got && (topic_count =? Z.of_nat (length got)) &&
           negb (intent =? 0)%N
         else
           match got with [] => (topic_count =? 0) && negb (intent =? 1)%N | _ => false end in
